@@ -157,6 +157,25 @@ func (r RCk) MarshalText() ([]byte, error) {
 	return out, nil
 }
 
+// omitzero: the generated encoder asks the field's type whether the value is zero (a call-out into IsZero, and data about the
+// field that the generated code refers to by address long after it was compiled)
+type RCz struct{ S string }
+
+func (z RCz) IsZero() bool {
+	r := z.S == ""
+	rtEvent()
+	return r
+}
+
+type rtZeroStruct struct {
+	A RCz    `json:"a,omitzero"`
+	B int    `json:"b,omitzero"`
+	C *RCz   `json:"c,omitzero"`
+	D RCz    `json:"d,omitzero"`
+	E string `json:"e,omitzero"`
+	Z int    `json:"z"`
+}
+
 // map key types whose pointer-receiver UnmarshalText is a call-out while the freshly allocated key is only held by generated code
 type RCkey struct {
 	Name string
@@ -277,6 +296,31 @@ func rtRun(prog string) (string, error) {
 		v := []interface{}{RCm{"x"}, map[string]interface{}{"k": RCm{"y"}}, &RCm{"z"}, rtLong}
 		b, err := sonic.ConfigStd.Marshal(v)
 		return string(b), err
+	case "enc_omitzero":
+		// the same value encoded twice with collections and a refill of the freed memory in between: what the codec compiled
+		// for the type refers to must still be there (sonic is its own reference here: encoding/json of this toolchain has no omitzero)
+		v := rtZeroStruct{A: RCz{"a"}, B: 7, C: &RCz{"c"}, E: rtLong, Z: 9}
+		b1, err := sonic.ConfigStd.Marshal(&v)
+		if err != nil {
+			return "", err
+		}
+		first := string(b1)
+		runtime.GC()
+		runtime.GC()
+		// (objects of the size classes, with pointers, that descriptors of fields and types fall into: 48..96 bytes)
+		spray := make([]interface{}, 0, 400000)
+		for i := 0; i < 100000; i++ {
+			spray = append(spray, &[10]*byte{}, &[9]*byte{}, &[8]*byte{}, &[12]*byte{})
+		}
+		b2, err := sonic.ConfigStd.Marshal(&v)
+		runtime.KeepAlive(spray)
+		if err != nil {
+			return "", err
+		}
+		if string(b2) != first {
+			return "", fmt.Errorf("integrity: the same value encoded %s and, after two collections, %s", first, b2)
+		}
+		return first, nil
 	case "enc_slice":
 		v := []RCm{{"1"}, {"2"}, {"3"}}
 		b, err := sonic.ConfigStd.Marshal(v)
@@ -349,6 +393,9 @@ func rtHandle(in []byte) []byte {
 	obsAdd(got)
 	if got != base {
 		res.Bad, res.Base, res.Got = "result_differs", clip(base, 600), clip(got, 600)
+	} else if strings.HasPrefix(got, "error: integrity:") {
+		// a program that checks itself (two encodings of one value): wrong whatever the baseline run did
+		res.Bad, res.Base, res.Got = "result_differs", "two equal encodings", clip(got, 600)
 	}
 	res.DG = od.sum
 	out, _ := json.Marshal(res)
